@@ -11,7 +11,7 @@ import Mathlib.Data.Rat.Floor
 trivially (`rounding_id`). To show that the hypothesis is not satisfiable by exact arithmetic ONLY, this
 file proves it of fixed-point round-to-nearest (halves up) with `k` fractional bits, `roundFix k`: an
 arithmetic that really loses information. (It is NOT binary floating point: `Rounding (2^p) (roundBits p)`
-for the executable float32 / float64 models remains a hypothesis, sampled on numpy on every run.)
+for the executable float32 / float64 models is proved in `Lemmas/PadChunkFloat.lean`, `rounding_roundBits`.)
 -/
 
 namespace PdtVerif.PadChunk
